@@ -7002,10 +7002,12 @@ def subn(
                     elif not one and (pfield := repl_slot.pfield) and pfield.idx is None:  # maybe need to turn off slice put if the field we are putting to is not a list field
                         one = True
 
+                repl_slot_new_a = repl_slot_new.a if repl_slot_new_is_matched_root else None
                 repl_slot_new = repl_slot.replace(repl_slot_new, one=one, **repl_options_)
 
-                if repl_slot_new_is_matched_root:  # replaced with whole matched node, mark top node as dirty otherwise would cause infinite recursion, we know repl_slot_new exists because repl_slot_new_is_matched_root means it was a node going in
-                    dirty.add(repl_slot_new.a)
+                if repl_slot_new_is_matched_root:  # replaced with whole matched node, mark top node as dirty otherwise would cause infinite recursion
+                    if one or (repl_slot_new and repl_slot_new.a is repl_slot_new_a):  # except if it was put as a slice and its elements spliced in, then top node is gone and what we got back is the first of those elements which should be substituted if it matches
+                        dirty.add(repl_slot_new.a)
 
             one = True
 
